@@ -35,9 +35,11 @@ type Case struct {
 	Hold     []string // verifhook sites at which the implementation is parked until released
 	LongPark bool     `json:",omitempty"`
 	// the creating evaluation cancels the future at once: (do (def fut (future …)) (future-cancel fut))
-	CancelAtCreation bool       `json:",omitempty"`
-	Threads          [][]string // ops: deref deref-short done? cancelled? cancel
-	Sched            []Ev
+	CancelAtCreation bool `json:",omitempty"`
+	// seventy other futures of the same program are running (waiting for something) when this one is created
+	Crowd   bool       `json:",omitempty"`
+	Threads [][]string // ops: deref deref-short done? cancelled? cancel
+	Sched   []Ev
 }
 
 // gates: 0 = inside the body (ctx-aware), 1 = inside the body (ignores cancellation), 2.. = hook sites
@@ -110,6 +112,7 @@ func genCase(t *rapid.T) Case {
 		c.Sched[i], c.Sched[j] = c.Sched[j], c.Sched[i]
 	}
 	c.CancelAtCreation = c.Body != "nested" && c.Body != "ignore" && c.Body != "panic" && gen.Chance(t, "cancelatcreation", 8)
+	c.Crowd = !c.CancelAtCreation && gen.Chance(t, "crowd", 10)
 	if c.CancelAtCreation {
 		// the cancel is issued by the creating evaluation, before the schedule runs: nothing may park it
 		kept := c.Hold[:0]
@@ -164,6 +167,9 @@ func describe(c Case) string {
 	sb.WriteString("body: " + bodyText(c.Body) + "\n")
 	if c.CancelAtCreation {
 		sb.WriteString("the creating evaluation cancels the future at once\n")
+	}
+	if c.Crowd {
+		sb.WriteString("seventy other futures are waiting\n")
 	}
 	if len(c.Hold) > 0 {
 		sb.WriteString("implementation parked at: " + strings.Join(c.Hold, ", ") + "\n")
@@ -249,9 +255,23 @@ func check(c Case) pbt.Verdict {
 	})
 	defer verifhook.Set(nil)
 
+	crowdCh := make(chan struct{})
+	defer close(crowdCh)
+	call.CallOverrideFN(e, "crowd-wait!", func(ctx context.Context) (types.MalType, error) {
+		select {
+		case <-crowdCh:
+		case <-ctx.Done():
+		}
+		return nil, nil
+	})
 	// the context of the evaluation that creates the future stays alive for the whole script
 	creatorCtx, creatorCancel := context.WithCancel(context.Background())
 	defer creatorCancel()
+	if c.Crowd {
+		if r := box.ReadEval(creatorCtx, "(def crowd (map (fn (i) (future (crowd-wait!))) (range 0 70)))", e); r.Err != nil || r.Panicked {
+			return pbt.Failf("harness:create", "creating the crowd failed: %v %v", r.Err, r.PanicVal)
+		}
+	}
 	creatorEnded := false
 	createdCancelled := false
 	var creationCancel *rec
@@ -272,6 +292,16 @@ func check(c Case) pbt.Verdict {
 		createdCancelled = true
 	} else if r := box.ReadEval(creatorCtx, "(def fut (future "+bodyText(c.Body)+"))", e); r.Err != nil || r.Panicked {
 		return pbt.Failf("harness:create", "creating the future failed: %v %v", r.Err, r.PanicVal)
+	}
+	if c.Crowd {
+		// the body is evaluated on a thread of its own, however many other futures are waiting for something
+		t0 := time.Now()
+		for bodyArrived.Load() == 0 && time.Since(t0) < 2*time.Second {
+			time.Sleep(time.Millisecond)
+		}
+		if bodyArrived.Load() == 0 {
+			return pbt.Failf("hang:body-not-started-among-many-futures", "two seconds after (future …) the body has not reached its first form, while seventy other futures of the program are waiting\n%s", describe(c))
+		}
 	}
 	var mu sync.Mutex
 	hist := []rec{}
